@@ -2,6 +2,7 @@ CONSTANTS Families = {"one", "rsv", "two", "three"}  Bug = ""  Emit = TRUE
   TwoFlags = {0, 2, 3, 6, 7}
   TwoSizes = {1, 5}
   ThreeSizes = {1, 4, 5}
+  HistLen = 4
 CONSTANT OneRsv <- MCOneRsvFull
 INIT Init
 NEXT Next
